@@ -27,8 +27,13 @@ BLOCKS = {
 }
 
 
-def _expected(model, family, rec, params, decorated, Ktrain):
+def _expected(model, family, rec, params, decorated, Ktrain, dyn=None):
     Xb, Ab = rec["X"], rec["A"]
+    if dyn is not None and dyn["in_path"]:
+        # dynamic mode as CONFIGURED by the user: the affinity of a step is the (linear) kernel of the features selected when the step began,
+        # computed here from the batch itself - independent of what the library handed to its objective
+        sel = dyn["sel"]
+        Ab = np.asarray(Xb)[:, sel] @ np.asarray(Xb)[:, sel].T
     P = model._infer(Xb, retain=False)
     gem = model.get_gemini()
     _, g = gem(P.copy(), Ab, return_grad=True)
@@ -96,6 +101,11 @@ def train_case(case):
             kw["feature_mask"] = np.array([True, False, True]) if variant != 5 else np.array([False, True, False])   # variant 5: a one-feature tree
     if family in ("SparseLinearModel", "SparseMLPModel"):
         kw["alpha"] = 0.05 if not use_path else 0.3
+    dynamic_route = route.startswith("dynamic")
+    if dynamic_route:
+        kw["dynamic"] = True
+        route_after = route
+        route = "ctor"
     verbose = route.endswith("+verbose")
     route = route.replace("+verbose", "")
     if verbose:
@@ -111,19 +121,22 @@ def train_case(case):
         from gemclus import add_mlcl_constraint
         model = add_mlcl_constraint(model, ML, CL, FACTOR)
     spy = seams.BatchSpy(model)
-    where = dict(route=route + ("+verbose" if verbose else ""), family=family, gemini=gemini if family not in ("RIM", "KernelRIM") else "mi", solver=solver, batch_size=bs, decorated=decorated,
+    where = dict(route=(route_after if dynamic_route else route) + ("+verbose" if verbose else ""), family=family, gemini=gemini if family not in ("RIM", "KernelRIM") else "mi", solver=solver, batch_size=bs, decorated=decorated,
                  trained_by="path" if use_path else "fit")
     Ktrain = None
     if family == "KernelRIM":
         from sklearn.metrics import pairwise_kernels
         Ktrain = pairwise_kernels(X, metric="linear")
     state = {"step": 0, "v": [], "nt": 0, "skipped": 0, "outs": set(), "noninv": 0}
+    dyn = {"sel": np.arange(d), "in_path": False, "calls": [], "since": 0} if dynamic_route else None
 
     def cb(opt, params, grads):
         rec = spy.current
         step = state["step"]
         state["step"] += 1
-        exp, skipped, g, P = _expected(model, family, rec, params, decorated, Ktrain)
+        if dyn is not None:
+            dyn["since"] += 1
+        exp, skipped, g, P = _expected(model, family, rec, params, decorated, Ktrain, dyn)
         state["skipped"] += skipped
         if len(grads) != len(params):
             state["v"].append(violation("wrong_number_of_directions", f"{len(grads)} directions for {len(params)} parameters", **where))
@@ -163,14 +176,45 @@ def train_case(case):
         del spy.log[:]
     import contextlib
     import io
+    import gemclus.sparse._base_sparse as _bs
+    real_cvs = _bs.compute_val_score
+
+    def cvs_spy(clf, Xa, ya, bsz, gem):
+        # two validation calls with no optimiser step in between: the second opens a path step, whose selection is the one in force now
+        if dyn["calls"] and dyn["since"] == 0:
+            dyn["in_path"] = True
+            dyn["sel"] = np.asarray(clf.get_selection()).copy()
+        dyn["calls"].append(1)
+        dyn["since"] = 0
+        return real_cvs(clf, Xa, ya, bsz, gem)
+    if dynamic_route and route_after == "dynamic_after_refused_path":
+        # event: path(X, K) on the dynamic model with warnings as errors - the documented "dynamic mode is ignored with a precomputed affinity"
+        # warning aborts the call; later, a valid dynamic path on the same object
+        import warnings
+        for mode_ in ("error", "ignore"):
+            try:
+                with warnings.catch_warnings(), contextlib.redirect_stdout(io.StringIO()):
+                    warnings.simplefilter(mode_)
+                    model.path(X[:3] if mode_ == "ignore" else X, (X @ X.T)[:3, :3] if mode_ == "ignore" else X @ X.T, alpha_multiplier=2.0 if mode_ == "error" else 4.0,
+                               min_features=1, max_patience=1)
+            except Exception:  # noqa
+                pass
+        del spy.log[:]
+    if dynamic_route:
+        _bs.compute_val_score = cvs_spy
     with seams.optimiser_spy(cb), contextlib.redirect_stdout(io.StringIO()):
         if use_path:
             import warnings
             with warnings.catch_warnings():
                 warnings.simplefilter("ignore")
-                model.path(X, alpha_multiplier=4.0, min_features=1, max_patience=1)
+                try:
+                    model.path(X, alpha_multiplier=4.0 if not dynamic_route else 2.0, min_features=1, max_patience=1)
+                except ValueError as e:
+                    if not (dynamic_route and "0 feature(s)" in str(e)):       # KF-C07-1 (reported by C07): the steps before it were judged
+                        raise
         else:
             model.fit(X)
+    _bs.compute_val_score = real_cvs
     # keep at most one violation per block
     seen, vs = set(), []
     for x in state["v"]:
@@ -220,6 +264,11 @@ def explorers(tier, seed):
                 for bs in ([None] if family == "CategoricalModel" else [2, None]):
                     for data_id in ((0, 20) if family in ("SparseLinearModel", "SparseMLPModel") and solver == "adam" else (0,)):
                         cases.append((family, gem, solver, bs, False, data_id, 3, 0.1, seed, route))
+    for family in ("SparseLinearModel", "SparseMLPModel"):
+        for route_ in ("dynamic", "dynamic_after_refused_path"):
+            for bs in (2, None):
+                for gem in ("mmd_ova", "mmd_ovo"):
+                    cases.append((family, gem, "adam", bs, False, 21, 3, 0.1, seed, route_))
     for family in FAMILIES:
         if family == "Douglas":
             continue
